@@ -47,6 +47,25 @@ NOT_DECIDED += (' ROUND 4 — still not decided: what the generated C does for a
                 '423ab91e8: `case 1.0 as x` bound the literal instead of the subject).')
 MUTANTS_ROUND4 = 'mutants/C31/*: 49 breaking (49 reported, one of them only since C31-NULLPATH was armed) + 8 behaviour-preserving (all silent); first-run figures per wave in /tmp/strengthen4/G12/REPORT.md'
 
+# ---- sixth round (sa/rules/s4C31.py) ---------------------------------------------------------------------------------------------------------------
+TECHNIQUE += ('; (round 6) per-iteration path exploration of the extraction loops of MatchCase.c (slot array `PyObject **subjects[]`, NULL = value not wanted) and evaluation of the '
+              'class / mapping / sequence pattern builders on mock nodes for every wildcard mask; classification of C type-test predicates as exact / inexact through their macro and '
+              'inline definitions in the utility catalogue (every #if variant)')
+DECIDES += (' ROUND 6 — C31-PROBE: a wildcard sub-pattern drops the sub-subject, never the test: every path through one iteration of an extraction loop that reaches the next element '
+            'makes a lookup call with that element\'s key / attribute name, also when the slot is NULL; whether the value is wanted does not change which (non-dict-only) callee queries '
+            'the subject; ClassPatternNode reads every keyword attribute — wildcard or not — inside the `try` of the lookup stage, once, in keyword order; the key / name / slot arrays and '
+            'the counts handed to the helpers keep the wildcard entries (None slot); the extraction helper is called whenever a mapping pattern has a key; the length test of a sequence '
+            'pattern counts wildcard and capture elements (all shapes up to 3 elements x star position x {pattern, capture, wildcard}). '
+            'C31-EXACT: a type test of a helper parameter that selects a path on which the parameter reaches the concrete-layout C-API (PyDict_* / PyList_* / PyTuple_* / PySet_*, directly '
+            'or through another helper of MatchCase.c) is an exact type test (…_CheckExact, Py_IS_TYPE, Py_TYPE(x) == &T, or a __Pyx_ macro / inline function all of whose #if variants '
+            'reduce to a disjunction of such tests); tests kept in a local flag and disjunctions are followed. C31-DICTONLY (repaired): a dict test that failed no longer counts once another '
+            'test of a disjunction passed; tests stored in a local are followed.')
+NOT_DECIDED += (' ROUND 6 — not decided: that the lookup made for an element is the one CPython makes (get() vs another method; only its presence and its independence from wantedness are '
+                'decided); a shortcut in a separate pre-pass over the slot array ("no value wanted -> match") — telling it from a harmless initialisation loop needs the correlation of two '
+                'loops with the same bound; exactness of validations of values read from the class (__match_args__ must be an exact tuple of exact str in CPython): these are locals, not the '
+                'subject parameter, and the file legitimately tests another such local (__mro__) inexactly.')
+MUTANTS_ROUND6 = 'mutants/C31/i3-*: breaking ones reported except three declined (see their meta.json), behaviour-preserving rewrites all silent; /tmp/strengthen6/I3/REPORT.md'
+
 # Single-edit variants tried on a scratch copy: (file, edit, rule/construct that reported it); all 25 were reported with exit 1.
 MUTATIONS = [
     ('Cython/Compiler/MatchCaseNodes.py', 'MatchValuePatternNode: rename get_main_pattern_targets (override lost)', 'C31-L7 MatchValuePatternNode.get_main_pattern_targets'),
